@@ -345,6 +345,37 @@ func runC06(c *mon.Ctx) {
 		}
 	}
 
+	// ---- byte strings nested in byte strings (every declared length is honest)
+	for _, depth := range []int{1, 2, 3, 8, 64, 500, 4000, 20000} {
+		idx++
+		if !c.Mine(idx) {
+			continue
+		}
+		for kind := 0; kind < 2; kind++ {
+			inner := []byte{0xa0}
+			if kind == 1 {
+				inner = refcbor.Encode(g.Valid(1 + g.R.Intn(2)).WireCBOR())
+			}
+			for i := 0; i < depth && len(inner) < 65000; i++ {
+				inner = refcbor.Encode(refcbor.Bstr(inner))
+			}
+			m.run("cbor", "depth-bomb:nested-byte-strings", inner)
+			tok := pick("cose")
+			if root, _, err := refcbor.Decode(tok.bytes); err == nil && root.K == refcbor.Tag && len(root.Items[0].Items) == 4 && len(inner) < 60000 {
+				root.Items[0].Items[2] = refcbor.Bstr(inner)
+				m.run("cose", "depth-bomb:payload:nested-byte-strings", refcbor.Encode(root))
+			}
+		}
+		c.Sig(fmt.Sprintf("depth|bstr-in-bstr|%d", depth))
+	}
+	// ---- JSON documents that put the dispatcher on its error paths, then good input again
+	for _, doc := range []string{`{"psa-profile":"PSA_IOT_PROFILE_1","eat-profile":"http://arm.com/psa/2.0.0"}`, `{"psa-profile":null,"eat-profile":"http://example.com/unregistered"}`, `{"eat-profile":"http://example.com/unregistered"}`} {
+		m.run("json", "dispatcher-error-path", []byte(doc))
+		for _, fam := range []string{"json", "cbor", "cose"} {
+			it := pick(fam)
+			m.run(fam, "good-input-after-error-path", it.bytes)
+		}
+	}
 	// ---- width
 	for _, n := range []int{100, 1000, 23000, 65000} {
 		for kind := 0; kind < 5; kind++ {
